@@ -810,7 +810,14 @@ func SexpToGoStructs(
 		el := targVa.Elem()
 		switch el.Kind() {
 		case reflect.Float32, reflect.Float64:
-			el.SetFloat(float64(src.Val))
+			f := float64(src.Val)
+			if el.Kind() == reflect.Float32 {
+				f = float64(float32(f))
+			}
+			if f >= 9.3e18 || f <= -9.3e18 || int64(f) != src.Val {
+				return nil, fmt.Errorf("integer %d cannot be stored exactly in a field of type %v", src.Val, el.Type())
+			}
+			el.SetFloat(f)
 		case reflect.Int, reflect.Int8, reflect.Int16, reflect.Int32, reflect.Int64:
 			if el.OverflowInt(src.Val) {
 				return nil, fmt.Errorf("integer %d does not fit into a field of type %v", src.Val, el.Type())
@@ -838,6 +845,9 @@ func SexpToGoStructs(
 		case float64:
 			targVa.Elem().SetFloat(float64(src.Val))
 		default:
+			if targVa.Elem().Kind() == reflect.Float32 && targVa.Elem().OverflowFloat(src.Val) {
+				return nil, fmt.Errorf("float %v does not fit into a field of type %v", src.Val, targVa.Elem().Type())
+			}
 			targVa.Elem().SetFloat(float64(src.Val))
 		}
 	case *SexpHash:
@@ -906,6 +916,9 @@ func SexpToGoStructs(
 						case float64:
 							m[keys] = x
 						case int64:
+							if f := float64(x); f >= 9.3e18 || f <= -9.3e18 || int64(f) != x {
+								panic(fmt.Errorf("integer %d cannot be stored exactly in a float64", x))
+							}
 							m[keys] = float64(x)
 						default:
 							panic(fmt.Errorf("val '%v' should have been an float64, but was not.", val))
@@ -931,6 +944,9 @@ func SexpToGoStructs(
 						case float64:
 							m[keyint64] = x
 						case int64:
+							if f := float64(x); f >= 9.3e18 || f <= -9.3e18 || int64(f) != x {
+								panic(fmt.Errorf("integer %d cannot be stored exactly in a float64", x))
+							}
 							m[keyint64] = float64(x)
 						default:
 							panic(fmt.Errorf("val '%v' should have been an float64, but was not.", val))
